@@ -69,6 +69,13 @@ def plan_for(v, tag):
 
 
 def _deep_fail(depth, tag, t):
+    # alternates with _deep_fail_b so that the traceback formatter does not collapse the frames
+    if depth > 0:
+        return _deep_fail_b(depth - 1, tag, t)
+    raise Boom(tag, t)  # SITE-MARK-7f3a call (deep)
+
+
+def _deep_fail_b(depth, tag, t):
     if depth > 0:
         return _deep_fail(depth - 1, tag, t)
     raise Boom(tag, t)  # SITE-MARK-7f3a call (deep)
